@@ -4,9 +4,16 @@
    ClusterCIDR changes nothing but the controller's own finalizer; an association is recorded with every
    successful (or unknowable) write of pod CIDRs taken from the entry and is preserved, together with the
    reserved keys, by every work item other than the release of that very node (C01, Resv_proofs.v).
+   The temporal half (Term_proofs.v, Uniq_proofs.v): (1) the work item of a ClusterCIDR whose deletion was requested
+   marks THE entry of that name under its selector terminating (or removes it) -- "the" because in every reachable world
+   there is at most one (C10); (2) a terminating entry stays terminating for as long as it exists, through every node
+   work item, release and ClusterCIDR work item; (3) the entries offered to an allocation exclude terminating ones, with
+   or without selector, and in every step of every history the pod CIDRs of a PATCH are taken from an entry that is not
+   terminating.
    Not proved (monitored): that releases of a node happen only when the node is gone or being deleted
    -- the world-level glue, same residue as C01. *)
-From NIPAM Require Import Resv_proofs Sys Alloc_proofs Sys_proofs.
+From NIPAM Require Import Resv_proofs Sys Alloc_proofs Inv_proofs Sys_proofs World_proofs Path_proofs Svc_proofs Term_proofs Uniq_proofs.
+From Coq Require Import Lia.
 Open Scope N_scope.
 
 (* the finalizer-removing write is issued only when the entry filed for that ClusterCIDR has no
@@ -49,3 +56,75 @@ Proof.
   rewrite He in Ha. discriminate Ha.
 Qed.
 Print Assumptions C06_no_release_while_a_node_is_associated.
+
+(* ---------- the temporal half ---------- *)
+(* (3a) what is offered to an allocation: no terminating entry, selector or not *)
+Theorem C06_offer_excludes_terminating_entries :
+  forall po lab m ls ps, KU m -> ordered_matching po lab m ls true = Ok ps ->
+  forall q, In q ps -> exists c, get_entry m q = Some c /\ cc_term c = false.
+Proof. exact ordered_matching_live. Qed.
+Print Assumptions C06_offer_excludes_terminating_entries.
+
+(* (3b) over histories: the CIDRs of every PATCH are taken from ONE entry of the state the work item started from, and
+   that entry is not terminating; on success the node is associated with the entry at the same place *)
+Theorem C06_nothing_is_allocated_from_a_terminating_entry :
+  forall po lab ops o w' ob, Forall wf_op ops ->
+  let w := run po lab init_world ops in
+  step po lab w o = (w', ob) ->
+  forall nm cs out, In (FxPatch nm cs out) (ob_fx ob) ->
+  exists m m' r, w_ctl w = Some m /\ (r <> Panic -> w_ctl w' = Some m') /\
+  exists p e, get_entry m p = Some e /\ cc_term e = false /\
+    (r = Ok tt -> exists e', get_entry m' p = Some e' /\ has_str nm (cc_assoc e') = true /\
+                   forall x, In x cs -> exists pl, pool_of e' (cf x) = Some pl /\ In x (used pl)).
+Proof. intros po lab ops o w' ob H w Hs nm cs out He. exact (history_no_patch_from_terminating po lab ops o w' ob H Hs nm cs out He). Qed.
+Print Assumptions C06_nothing_is_allocated_from_a_terminating_entry.
+
+(* (1) processing the deletion request: every entry of that name under the object's selector is terminating afterwards
+   (in every reachable world there is at most one: C10_one_entry_per_clustercidr_in_every_history gives KU and NU) *)
+Theorem C06_deletion_request_marks_the_entry_terminating :
+  forall m o out m' r fx k, NU m -> KU m -> o_selkey o = Some k ->
+  reconcile_delete m o out = (m', r, fx) -> all_term_at m' k (o_name o).
+Proof. exact reconcile_delete_marks_terminating. Qed.
+Print Assumptions C06_deletion_request_marks_the_entry_terminating.
+
+(* (2) a terminating entry stays terminating for as long as it exists *)
+Theorem C06_terminating_survives_clustercidr_items :
+  forall m key cached out m' r fx k X,
+  KU m -> NU m -> sync_cc m key cached out = (m', r, fx) -> term_at m k X -> all_term_at m' k X.
+Proof. exact sync_cc_keeps_terminating. Qed.
+Print Assumptions C06_terminating_survives_clustercidr_items.
+
+Theorem C06_terminating_survives_node_items :
+  forall po lab svcs canp apisame held m cached reread outs m' r fx k X,
+  MapInv m -> NU m -> SInv svcs m -> Forall wf_cidr svcs -> (forall n, cached = Some n -> wf_node n) ->
+  sync_node po lab svcs canp apisame held m cached reread outs = (m', r, fx) -> term_at m k X -> all_term_at m' k X.
+Proof. exact sync_node_keeps_terminating. Qed.
+Print Assumptions C06_terminating_survives_node_items.
+
+Theorem C06_terminating_survives_releases :
+  forall svcs m node m' r k X,
+  MapInv m -> NU m -> SInv svcs m -> Forall wf_cidr svcs -> wf_node node ->
+  release_cidr svcs m node = (m', r) -> term_at m k X -> all_term_at m' k X.
+Proof. exact release_cidr_keeps_terminating. Qed.
+Print Assumptions C06_terminating_survives_releases.
+
+(* non-vacuity: c1 serves n1; its deletion is requested and processed (busy: n1 depends on it; the entry is marked
+   terminating and stays); n2 arrives and is refused *)
+Example C06_history_nonvacuous :
+  let po0 : parse_oracle := fun _ => Some [] in
+  let lab0 : label_oracle := fun k => [cl k] in
+  let ops := [UCreateCC (mkCCObj [99] (FOk (mkCidr V4 167772160 26)) FEmpty 4 (Some [107]) [] false 1 0 0);
+              Construct None None [UOk]; StartInformers; ProcCC UOk;
+              UCreateNode [110;49] [] []; DeliverNode; ProcNode [POk];
+              UDeleteCC [99]; DeliverCC; DeliverCC; ProcCC UOk;
+              UCreateNode [110;50] [] []; DeliverNode; DeliverNode; ProcNode [POk]; ProcNode [POk]] in
+  Forall wf_op ops /\
+  map (fun a => (an_name a, an_cidrs a)) (w_nodes (run po0 lab0 init_world ops))
+    = [([110;49], [PGood (mkCidr V4 167772160 28) true]); ([110;50], [])] /\
+  map (fun e => (cc_name e, cc_term e, cc_assoc e)) (match w_ctl (run po0 lab0 init_world ops) with Some m => all_entries m | None => [] end)
+    = [([99], true, [[110;49]])].
+Proof.
+  cbv zeta. split; [|split; vm_compute; reflexivity].
+  repeat constructor; cbn; try (intros ? E; discriminate E);
+    try (unfold good_obj, good_field, good_range, wf_cidr; cbn; repeat split; try lia; try discriminate; intros [? _]; discriminate).
+Qed.
